@@ -78,9 +78,24 @@ def uniq (l : List String) : List String :=
 /-- `QueryPlanStep.VariablesList` -/
 def variablesList (ss : List Sel) : List String := uniq (varNames ss)
 
-def setStr (k v : String) : List (String × String) → List (String × String)
+/-- a GraphQL type string without its non-null marks, and the number of them -/
+def stripBang (t : String) : String := String.ofList (t.toList.filter (· != '!'))
+def countBang (t : String) : Nat := (t.toList.filter (· == '!')).length
+
+/-- `setVariableType` (format.go): the type a variable is declared with in the synthesised header.
+    `strict` = a variable used at several positions keeps the STRICTEST of their types (same type
+    up to non-null marks, at least as many marks) whatever the visiting order; `false` = the plain
+    map assignment the code had before (the last position visited wins). -/
+def setVarTypeWith (strict : Bool) (k v : String) : List (String × String) → List (String × String)
   | [] => [(k, v)]
-  | (k', v') :: rest => if k = k' then (k, v) :: rest else (k', v') :: setStr k v rest
+  | (k', v') :: rest =>
+    if k = k' then
+      (if strict && stripBang v' == stripBang v && decide (countBang v ≤ countBang v') then (k, v') :: rest else (k, v) :: rest)
+    else (k', v') :: setVarTypeWith strict k v rest
+
+/-- as the code has it now (regenerated fact `Gen.Vars.strictestTypeWins`) -/
+def setStr (k v : String) (m : List (String × String)) : List (String × String) :=
+  setVarTypeWith Gen.Vars.strictestTypeWins k v m
 
 mutual
   /-- variables inside a list / input-object argument value, each with the type the validator
